@@ -333,6 +333,79 @@ fn long_bin(rep: &mut Report) {
     }
 }
 
+/// Positions beyond the schedule whose product with the hop WRAPS THE MACHINE WORD onto a valid
+/// chunk start (result-targeted operands, for the word of the build under test): a slice of more
+/// than 2^(BITS/2) frames, an ordinary hop h <= L - b and an ordinary n <= L - b with
+/// n * h = 2^BITS + r, r < n. `nth(n)` and `step_by` must see the end of the schedule there, and
+/// the chunks that exist must be found at their places. Only affordable where 2^(BITS/2) frames
+/// can be allocated, i.e. in a 32-bit build.
+fn wrapped_position_probes(rep: &mut Report, seed: u64) {
+    rep.oblige("positions_whose_product_with_the_hop_wraps_the_word", 1);
+    let word: u128 = 1u128 << usize::BITS;
+    let mut rng = Rng::derive(seed, &[2032]);
+    for l in [66_000usize, 70_000, 100_003, 131_075] {
+        let frames: Vec<f64> = (0..l).map(|i| i as f64).collect();
+        for b in [2usize, 8, 33] {
+            let lo = (word / (l - b) as u128) as usize + 1;
+            for k in 0..6usize {
+                let n = if k == 0 { l - b } else if k == 1 { lo } else { lo + rng.usize_below(l - b - lo) };
+                let h = ((word + n as u128 - 1) / n as u128) as usize; // n * h = 2^BITS + r, 0 <= r < n
+                if h > l - b || h == 0 {
+                    continue;
+                }
+                let case = format!("kind=wrapnth;l={};b={};h={};n={}", l, b, h, n);
+                let count = (l - b) / h + 1;
+                let res = vmon::catch(std::panic::AssertUnwindSafe(|| -> Result<(), String> {
+                    let mut w: Windower<f64, Rectangle> = Windower::new(&frames[..], b, h);
+                    let (lo_hint, hi_hint) = w.size_hint();
+                    if lo_hint > count || hi_hint.map_or(false, |x| x < count) {
+                        return Err(format!("size_hint ({}, {:?}) with {} chunks in the schedule", lo_hint, hi_hint, count));
+                    }
+                    if let Some(c) = w.nth(n) {
+                        let first: Vec<f64> = c.take(1).collect();
+                        return Err(format!("nth({}) returned a chunk starting with frame {:?}; the schedule has {} chunks", n, first, count));
+                    }
+                    if w.next().is_some() {
+                        return Err(format!("next() after nth({}) = None yields another chunk", n));
+                    }
+                    // the chunks that do exist, through nth
+                    for j in 0..count {
+                        let mut w: Windower<f64, Rectangle> = Windower::new(&frames[..], b, h);
+                        let got: Option<Vec<f64>> = w.nth(j).map(|c| c.take(b).collect());
+                        let want: Vec<f64> = (0..b).map(|i| (j * h + i) as f64).collect();
+                        if got.as_ref() != Some(&want) {
+                            return Err(format!("nth({}) = {:?}, expected the chunk starting at frame {}", j, got.map(|g| g[0]), j * h));
+                        }
+                    }
+                    let w: Windower<f64, Rectangle> = Windower::new(&frames[..], b, h);
+                    let stepped = w.step_by(n).count();
+                    if stepped != 1 {
+                        return Err(format!("step_by({}).count() = {}, the schedule has {} chunks", n, stepped, count));
+                    }
+                    let w: Windower<f64, Rectangle> = Windower::new(&frames[..], b, h);
+                    let total = w.count();
+                    if total != count {
+                        return Err(format!("count() = {}, the schedule has {} chunks", total, count));
+                    }
+                    Ok(())
+                }));
+                ev(4 + count as u64);
+                match res {
+                    Ok(Ok(())) => rep.hit("positions_whose_product_with_the_hop_wraps_the_word"),
+                    Ok(Err(d)) => {
+                        rep.violation("windower|wrapped_position|chunk_outside_the_schedule_or_wrong", format!("L {} bin {} hop {}: {}", l, b, h, d), case);
+                        return;
+                    }
+                    Err(m) => {
+                        rep.violation("windower|wrapped_position|panic", format!("L {} bin {} hop {} n {}: panicked: {}", l, b, h, n, m), case);
+                        return;
+                    }
+                }
+            }
+        }
+    }
+}
+
 fn windower_all(rep: &mut Report, l: usize, b: usize, h: usize) {
     if let Err(m) = vmon::catch(std::panic::AssertUnwindSafe(|| windower_all_inner(rep, l, b, h))) {
         rep.violation("windower|panic", format!("L={} bin={} hop={}: panicked: {}", l, b, h, m), format!("kind=windower;w=any;fmt=any;ch=0;l={};b={};h={}", l, b, h));
@@ -384,6 +457,7 @@ fn main() {
             "iter" => check_window_iter(&mut rep, m["n"].parse().unwrap()),
             "zst" => zero_sized_frames(&mut rep),
             "longbin" => long_bin(&mut rep),
+            "wrapnth" => wrapped_position_probes(&mut rep, cli.seed),
             _ => windower_all(&mut rep, m["l"].parse().unwrap(), m["b"].parse().unwrap(), m["h"].parse().unwrap()),
         }
         flush_tl(&mut rep);
@@ -422,6 +496,10 @@ fn main() {
                     }
                 }
             }
+        }
+        if usize::BITS < 64 && cli.shard == 0 {
+            wrapped_position_probes(&mut rep, cli.seed);
+            flush_tl(&mut rep);
         }
         for l in [0usize, 3, 5] {
             for b in [2usize, l, l + 1] {
